@@ -23,6 +23,8 @@ const (
 	errorInvalidMessage          = "invalid message (%s)"
 	errorInvalidBulkStringLength = "invalid bulk string length (%d != %d)"
 	errorInvalidBulkStringDelim  = "invalid bulk string ending delimiter %s"
+	errorInvalidBulkLength       = "invalid bulk length (%d)"
+	errorInvalidArrayLength      = "invalid multibulk length (%d)"
 )
 
 // ErrEOM is the error returned by Array::Next() when no more message is available.
